@@ -4,6 +4,7 @@ CONSTANTS
     Depth = 0
     Kinds = {"unary", "prod", "exch"}
     MaxN = 2
+    MaxZeros = 0
     Limits = {1, 2}
     InitErrs = {FALSE, TRUE}
     Inputs = {"ok", "drift"}
